@@ -11,6 +11,7 @@ package index
 //gvc:func (*Index).SkipUnless
 //gvc:  props C32
 //gvc:  theory int
+//gvc:  modifies i.Entries[*]@Entry.SkipWorktree
 //gvc:  requires entries: forall(a, 0, len(i.Entries), i.Entries[a] != nil)
 //gvc:  loop 1 invariant done: forall(a, 0, it1, i.Entries[a].SkipWorktree == !exists(b, 0, len(patterns), has_prefix(i.Entries[a].Name, patterns[b]) && (len(i.Entries[a].Name) == len(patterns[b]) || i.Entries[a].Name[len(patterns[b])] == '/')))
 //gvc:  loop 1 invariant frame: len(i.Entries) == old(len(i.Entries))
